@@ -447,7 +447,9 @@ Section Exec.
       destruct (fold_left (vm_transfer) trs (s, a, b)) as [[s1 a1] b1] eqn:F.
       match type of H with (if ?c then _ else _) = _ => destruct c eqn:Cond end.
       2:{ inv5. repeat split; auto. }
-      apply andb_true_iff in Cond as [Cond C3]. apply andb_true_iff in Cond as [C1' C2'].
+      match type of H with (if ?c then _ else _) = _ => destruct c eqn:C3 end.
+      2:{ destruct trs; inv5; repeat split; auto; lia. }
+      apply andb_true_iff in Cond as [C1' C2'].
       apply Z.leb_le in C2', C3.
       assert (Hall : Forall (fun tr : N * Z => 0 <= snd tr) trs).
       { apply Forall_forall. intros x Hx. rewrite forallb_forall in C1'. apply Z.leb_le. apply C1'. exact Hx. }
